@@ -78,12 +78,13 @@ func propTable() map[string]PropSpec {
 			{Harness: "HarnessC12Parse", ArgSets: c12Args(level, false), Reach: []string{"C12.parse.end"}},
 			{Harness: "HarnessC12Bounds", ArgSets: bounds, Reach: []string{"C12.parse.end", "C12.parse.longer.end", "C12.parse.inheader.end"}},
 			{Harness: "HarnessC12Write", ArgSets: c12Args(level, true), Reach: []string{"C12.write.end"}},
+			{Harness: "HarnessC02PES", ArgSets: [][]int64{{10, 1, 0}, {0, 0, 0}, {200, 1, 1}}, Reach: []string{"C02.pes.end"}, Asserts: []string{"C12."}},
 		}
 	}
 	t["C12"] = PropSpec{
 		ID: "C12", Quick: c12(0), Thorough: c12(1),
 		Bounds: map[string]string{
-			"quick":    "one PES packet: stream id symbolic (with optional header) / 0xBE / 0xBF; PTS_DTS_flags in {00,10,11} x all 2^6 flag subsets with extension subsets {none, all}, and all 2^5 extension subsets for flag sets {ext only, all, all but CRC}; extension-2 length in {0,2}; header stuffing in {0,5}; payload 5 bytes; PES_packet_length 0/exact; bounds harness: shorter by 1..7, longer by {1,2,300}, ending inside the header; all field values symbolic (timestamps 2^33, ESCR 2^42, ES rate 2^22, all 256 trick bytes, CRC 2^16); Duration(): all base<2^33, ext<2^9",
+			"quick":    "one PES packet: stream id symbolic (with optional header) / 0xBE / 0xBF; PTS_DTS_flags in {00,10,11} x all 2^6 flag subsets with extension subsets {none, all}, and all 2^5 extension subsets for flag sets {ext only, all, all but CRC}; extension-2 length in {0,2}; header stuffing in {0,5}; payload 5 bytes; PES_packet_length 0/exact; bounds harness: shorter by 1..7, longer by {1,2,300}, ending inside the header; all field values symbolic (timestamps 2^33, ESCR 2^42, ES rate 2^22, all 256 trick bytes, CRC 2^16); Duration(): all base<2^33, ext<2^9; through the Demuxer: a PES unit (0/10/200 payload bytes) whose bytes are split over TS packets at every point (first packet carrying 1, 2, ... bytes of the start code) is still recognised and decoded",
 			"thorough": "full cross product of flag subsets and extension subsets; extension-2 length in {0,1,2,64,127}, header stuffing in {0,1,5,32}, bounds payload 12 bytes",
 		},
 		Outside:     "PTS_DTS_flags '01' (forbidden by ISO); pack_header contents (pack_field_length > 0): the library stores only the length byte; writer: previous_PES_packet_CRC and pack header are not supported by the library and not claimed",
@@ -162,6 +163,7 @@ func propTable() map[string]PropSpec {
 		return []TaskSpec{
 			{Harness: "HarnessC14Desc", ArgSets: kinds, Reach: []string{"C14.desc.end"}},
 			{Harness: "HarnessC14Loop", ArgSets: loops, Reach: []string{"C14.loop.end"}},
+			{Harness: "HarnessC14LoopBig", ArgSets: [][]int64{{253, 1}, {254, 1}, {255, 1}, {255, 2}, {250, 3}}, Reach: []string{"C14.loopbig.end"}},
 			{Harness: "HarnessC14Skip", ArgSets: skips, Reach: []string{"C14.skip.ok"}, MaxPaths: 200000},
 			{Harness: "HarnessC14LangLen", ArgSets: cross(ints(2, 6, 7, 8, 9, 12, 17, 19, 20, 22), ints(0, 2, 4)), Reach: []string{"C14.langlen.end"}, Asserts: []string{"C14."}},
 		}
@@ -199,12 +201,13 @@ func propTable() map[string]PropSpec {
 			{Harness: "HarnessC13Decode", ArgSets: dec, Reach: []string{"C13.decode.end"}},
 			{Harness: "HarnessC13Encode", ArgSets: enc, Reach: []string{"C13.encode.end"}, Asserts: []string{"C13."}},
 			{Harness: "HarnessC13DecodeBig", ArgSets: [][]int64{{2}, {3}, {4}}, Reach: []string{"C13.big.end"}},
+			{Harness: "HarnessC13Multi", ArgSets: [][]int64{{60, 184}, {60, 100}, {45, 184}, {90, 150}}, Reach: []string{"C13.multi.end"}},
 		}
 	}
 	t["C13"] = PropSpec{
 		ID: "C13", Quick: c13(0), Thorough: c13(1),
 		Bounds: map[string]string{
-			"quick":    "decode: PAT 0/1/4 programs, PMT 0/1/3 streams, SDT/NIT/EIT 0/1/2 entries, TOT; table_id over all variants of the type (EIT: 0x4E..0x6F symbolic); every identifier/flag/version field symbolic; descriptor loops: first loop 0..1 descriptors of {stream identifier, unknown tag, user defined} with 0/2 body bytes, other loops {empty, one stream identifier}; pointer_field in {0,1,5} with arbitrary filler; 1..2 sections per unit; trailing 0xFF stuffing 0/3 bytes; EIT/TOT times are concrete representatives (C15 covers the time kernels). encode: PAT 0/1/4 programs, PMT 0/1/3 streams with the same descriptor loops, pointer_field 0/2",
+			"quick":    "decode: PAT 0/1/4 programs, PMT 0/1/3 streams, SDT/NIT/EIT 0/1/2 entries, TOT; table_id over all variants of the type (EIT: 0x4E..0x6F symbolic); every identifier/flag/version field symbolic; descriptor loops: first loop 0..1 descriptors of {stream identifier, unknown tag, user defined} with 0/2 body bytes, other loops {empty, one stream identifier}; pointer_field in {0,1,5} with arbitrary filler; 1..2 sections per unit; trailing 0xFF stuffing 0/3 bytes; EIT/TOT times are concrete representatives (C15 covers the time kernels); through the Demuxer: a PAT unit of two sections of 45/60/90 programs spanning 3-4 packets with the second section starting inside a continuation packet. encode: PAT 0/1/4 programs, PMT 0/1/3 streams with the same descriptor loops, pointer_field 0/2",
 			"thorough": "PAT up to 16 programs, PMT up to 6 streams, SDT/NIT/EIT up to 4 entries, descriptor loops of 0..2 descriptors everywhere, three two-section combinations per kind",
 		},
 		Outside: "loops up to the 1021/4093-byte section limits (pure repetition of the same loop body); descriptor bodies (C14); DVB time arithmetic (C15)",
@@ -251,6 +254,10 @@ func propTable() map[string]PropSpec {
 				}
 			}
 		}
+		// adaptation field whose private data alone exceeds a packet (190 bytes): a few payload lengths only
+		for _, l := range []int64{0, 9, 17} {
+			wd = append(wd, []int64{9, 0, l, 0}, []int64{9, 2, l, 1})
+		}
 		hist = [][]int64{{2, 1}, {3, 2}}
 		lvl := int64(0)
 		maxK := int64(2)
@@ -273,13 +280,14 @@ func propTable() map[string]PropSpec {
 			{Harness: "HarnessMuxHistory", ArgSets: hist, Reach: []string{"mux.history.end"}, Asserts: prefixes},
 			{Harness: "HarnessMuxStep", ArgSets: step, Reach: []string{"mux.step.end"}, Asserts: prefixes},
 			{Harness: "HarnessMuxScript", ArgSets: script, Reach: []string{"mux.script.end"}, Asserts: prefixes},
+			{Harness: "HarnessMuxPair", ArgSets: append(cross(ints(0, 1, 2, 3, 4), ints(0, 1, 2, 3, 4), ints(0)), []int64{0, 3, 1}, []int64{4, 1, 1}, []int64{1, 0, 1}), Reach: []string{"mux.pair.end"}, Asserts: prefixes},
 			{Harness: "HarnessMuxWrap", Reach: []string{"mux.wrap.end"}, Asserts: prefixes},
 			{Harness: "HarnessMuxPeriod", ArgSets: [][]int64{{1}, {2}, {39}, {40}, {41}, {42}, {43}, {50}}, Reach: []string{"mux.period.end"}, Asserts: prefixes},
 			{Harness: "HarnessMuxBig", ArgSets: [][]int64{{65527, 1}, {65528, 1}, {65530, 1}, {65535, 1}, {65536, 1}, {65530, 0}}, Reach: []string{"mux.big.end"}, Asserts: prefixes},
 		}
 	}
 	muxBounds := map[string]string{
-		"quick":    "one inductive step from an arbitrary valid Muxer state (0..2 streams; every counter, version, dirty flag and the retransmit counter symbolic under the stated invariant; retransmit period 1 and 3) for each of the 8 operations with symbolic arguments, invariant re-checked after the step; all operation histories of length <= 3 from NewMuxer over {Add explicit/auto, Remove, SetPCRPID, WriteTables, WriteData (2 PIDs, with/without AF, 1 or 190 payload bytes), WriteData with an oversized AF, WritePacket 184/185 bytes}; 13 scripted histories of 5-10 operations around failed table emissions, remove/re-add and writes interleaved over two PIDs after a re-add, each with retransmit periods 1, 2 and 3; WriteData with first-packet AF {none, PCR+RAI, private data+RAI, 175-byte private data} x timestamps {none, PTS+DTS} x 18 payload lengths around the 184-byte boundaries (1..372) x {first call, later call}, symbolic PID/stream type/payload/timestamps/PCR; 18 units and 34 content changes for counter/version wrap-around; configured retransmit periods {1,2,39,40,41,42,43,50} driven for p+2 calls; two units of 65527/65528/65530/65535/65536 payload bytes (audio and video stream ids) around the PES_packet_length limit; WritePacket with adaptation fields {none, PCR+stuffing, one-byte, private data} and payloads fitting exactly / 1 / 2 bytes over; every output is also demultiplexed by the real Demuxer (C01)",
+		"quick":    "one inductive step from an arbitrary valid Muxer state (0..2 streams; every counter, version, dirty flag and the retransmit counter symbolic under the stated invariant; retransmit period 1 and 3) for each of the 8 operations with symbolic arguments, invariant re-checked after the step; all operation histories of length <= 3 from NewMuxer over {Add explicit/auto, Remove, SetPCRPID, WriteTables, WriteData (2 PIDs, with/without AF, 1 or 190 payload bytes), WriteData with an oversized AF, WritePacket 184/185 bytes}; 13 scripted histories of 5-10 operations around failed table emissions, remove/re-add and writes interleaved over two PIDs after a re-add, each with retransmit periods 1, 2 and 3; WriteData with first-packet AF {none, PCR+RAI, private data+RAI, 175-byte and 190-byte private data, exact-fit private data, extension} x timestamps {none, PTS+DTS} x 18 payload lengths around the 184-byte boundaries (1..372) x {first call, later call}, symbolic PID/stream type/payload/timestamps/PCR; every ordered pair of WriteData calls whose last packets need 1 / 2 / 0 / many stuffing bytes (state carried from one packet to the next); 18 units and 34 content changes for counter/version wrap-around; configured retransmit periods {1,2,39,40,41,42,43,50} driven for p+2 calls; two units of 65527/65528/65530/65535/65536 payload bytes (audio and video stream ids) around the PES_packet_length limit; WritePacket with adaptation fields {none, PCR+stuffing, one-byte, private data} and payloads fitting exactly / 1 / 2 bytes over; every output is also demultiplexed by the real Demuxer (C01)",
 		"thorough": "states with up to 3 streams, all WriteData variants in the step, histories of length 4, timestamps {none, PTS, PTS+DTS}",
 	}
 	muxOutside := "more than 3 streams; ES/program descriptors in the PMT (the PMT-larger-than-one-packet rejection is not exercised); payloads longer than 372 bytes including PES_packet_length > 65535 (writePESHeader's length rule is covered for all sizes in C12); histories longer than 4 other than through the inductive step and the scripts"
@@ -359,6 +367,10 @@ func propTable() map[string]PropSpec {
 			}
 		}
 		chunks = append(chunks, []int64{0, 0, 204}, []int64{1, 0, 192})
+		if !th {
+			// auto-detection of a larger packet size under short reads (quick: seekable and plain readers, 192 and 190 bytes)
+			chunks = append(chunks, []int64{0, 1, 192}, []int64{1, 1, 192}, []int64{0, 1, 190})
+		}
 		for _, k := range []int64{4, 16} {
 			for _, f := range []int64{0, 16, 31} {
 				sizes = append(sizes, []int64{k, 3, f})
@@ -374,7 +386,7 @@ func propTable() map[string]PropSpec {
 	}
 	t["C08"] = PropSpec{ID: "C08", Quick: c08(false), Thorough: c08(true),
 		Bounds: map[string]string{
-			"quick":    "5-packet stream (PAT, PMT, 2 PES units) read through seekable / plain / bufio readers whose first three Read calls return at most c1,c2,c3 bytes for every (c1,c2,c3) in {1,2,100,size-1,size,size+1,193,400}^3, explicit and auto-detected size; auto-detection for every packet size 188..192 on every reader kind; auto-detection on streams that end inside the 193-byte detection window (one packet of 188/190/191/192 bytes plus 1..5 bytes); packets carried in 188+4 and 188+16 bytes with arbitrary extra bytes for the C11 adaptation-field layouts, through parsePacket and through NextPacket with an explicit size; explicit sizes 192 and 204",
+			"quick":    "5-packet stream (PAT, PMT, 2 PES units) read through seekable / plain / bufio readers whose first three Read calls return at most c1,c2,c3 bytes for every (c1,c2,c3) in {1,2,100,size-1,size,size+1,193,400}^3, explicit and auto-detected size (188-byte packets on every reader kind; 190/192-byte packets auto-detected on seekable and plain readers); auto-detection for every packet size 188..192 on every reader kind; auto-detection on streams that end inside the 193-byte detection window (one packet of 188/190/191/192 bytes plus 1..5 bytes); packets carried in 188+4 and 188+16 bytes with arbitrary extra bytes for the C11 adaptation-field layouts, through parsePacket and through NextPacket with an explicit size; explicit sizes 192 and 204",
 			"thorough": "fragmentation also for 192-byte packets",
 		},
 		Outside: "more than three short reads per stream (each read goes through the same io.ReadFull loop); streams longer than 5 packets; table contents are concrete in these streams (auto-detection compares every byte with the sync byte)"}
@@ -408,6 +420,7 @@ func propTable() map[string]PropSpec {
 			{Harness: "HarnessC03PSI", ArgSets: psi, Reach: []string{"C03.psi.end"}},
 			{Harness: "HarnessC03Progress", ArgSets: prog, Reach: []string{"C03.progress.end"}, MaxPaths: 400000},
 			{Harness: "HarnessC14Skip", ArgSets: [][]int64{{0}, {3}, {6}}, Reach: []string{"C14.skip.ok"}},
+			{Harness: "HarnessC03Long", ArgSets: [][]int64{{6, 0, 0}, {12, 0, 0}, {13, 0, 1}, {23, 0, 2}, {12, 1, 0}, {45, 0, 5}}, Reach: []string{"C03.long.end"}},
 			{Harness: "HarnessC03PacketAF", ArgSets: paf, Reach: []string{"C03.packetaf.ok"}, MaxPaths: 400000},
 		}
 	}
@@ -425,7 +438,7 @@ func propTable() map[string]PropSpec {
 			}
 		}
 		for one := int64(0); one <= 1; one++ {
-			wr = append(wr, []int64{0, one, 0}, []int64{2, one, 0})
+			wr = append(wr, []int64{0, one, 0}, []int64{2, one, 0}, []int64{3, one, 0})
 			for _, pi := range []int64{0, 2, 4, 3} {
 				wr = append(wr, []int64{1, one, pi})
 			}
@@ -456,6 +469,7 @@ func propTable() map[string]PropSpec {
 		Quick: []TaskSpec{
 			{Harness: "HarnessC20Rewind", ArgSets: cross(ints(0, 1), ints(0, 1), ints(0, 1)), Reach: []string{"C20.rewind.end"}},
 			{Harness: "HarnessC20RewindLong", ArgSets: [][]int64{{0}, {1}}, Reach: []string{"C20.long.end"}},
+			{Harness: "HarnessC20RewindMulti", ArgSets: [][]int64{{0}, {1}}, Reach: []string{"C20.multi.end"}},
 		},
 		Bounds:  map[string]string{"quick": "21-packet stream with two PES PIDs one of which consumes exactly 16 packets (counter wrap) before the rewind, k = 0..5 NextData calls; 5-packet stream (PAT precedes PMT) on a seekable reader: every number k of NextPacket (0..5) or NextData (0..4) calls before Rewind, Rewind repeated once with a second k, explicit and auto-detected size; the following full drain equals a fresh demuxer's"},
 		Outside: "longer streams"}
@@ -463,6 +477,7 @@ func propTable() map[string]PropSpec {
 		Quick: []TaskSpec{
 			{Harness: "HarnessC16Alias", ArgSets: [][]int64{{0}, {1}}, Reach: []string{"C16.alias.end"}},
 			{Harness: "HarnessC16Pool", Reach: []string{"C16.pool.end"}},
+			{Harness: "HarnessC16Caller", ArgSets: [][]int64{{0, 100}, {0, 183}, {0, 184}, {0, 1}, {1, 50}, {1, 176}, {2, 183}, {2, 10}, {3, 10}, {3, 200}, {3, 400}}, Reach: []string{"C16.caller.end"}},
 			{Harness: "HarnessC07Data", ArgSets: [][]int64{{0}, {2000}}, Reach: []string{"C07.data.end"}, Asserts: []string{"C16."}},
 			{Harness: "HarnessMuxWriteData", ArgSets: [][]int64{{0, 2, 9, 0}, {1, 1, 13, 1}, {2, 2, 4, 0}}, Reach: []string{"mux.writedata.end"}, Asserts: []string{"C16."}},
 		},
